@@ -229,6 +229,7 @@ func (g *vGenSess) double() {
 			g.inflight--
 		}
 	}
+	g.op("mark fairend")
 	// late signalling of everything that was withheld (signalled-after-prflx order), then more fair rounds
 	if r.chance(1, 2) {
 		for i := range la {
